@@ -2,6 +2,7 @@ package main
 
 import (
 	"bytes"
+	"encoding/json"
 	"fmt"
 	"net"
 	"os"
@@ -594,13 +595,14 @@ func init() {
 			level    int
 			scenario string
 			pw       string
+			phrase   string
 			impl     string
 			prop     string
 		}
 		var jobs []*job
 		for _, l := range levels {
-			for _, sc := range []string{"ok", "refused", "garbled"} {
-				jobs = append(jobs, &job{level: l, scenario: sc, pw: g.secret()})
+			for _, sc := range []string{"ok", "refused", "garbled", "echo", "secret-request-fails split", "secret-request-fails", "secret-request-ok split"} {
+				jobs = append(jobs, &job{level: l, scenario: sc, pw: g.secret(), phrase: g.secret()})
 			}
 		}
 		var wg sync.WaitGroup
@@ -620,12 +622,41 @@ func init() {
 					c.auth = replySpec{behaviour{kind: "garbled", k: 0}, "P invalidMagic 0"}
 				}
 				c.users = []replySpec{frameReply([]rscp.Message{{Tag: rscp.INFO_SERIAL_NUMBER, DataType: rscp.CString, Value: "serial"}})}
-				c.args = []string{"-host", "127.0.0.1", "-port", "{PORT}", "-user", "loguser", "-password", j.pw, "-key", "logkey", "-debug", strconv.Itoa(j.level),
-					`["INFO_REQ_SERIAL_NUMBER"]`}
+				reqText := `["INFO_REQ_SERIAL_NUMBER"]`
+				var extra []string
+				switch {
+				case j.scenario == "echo":
+					c.auth = frameReply([]rscp.Message{{Tag: rscp.RSCP_REQ_AUTHENTICATION, DataType: rscp.Container, Value: []rscp.Message{
+						{Tag: rscp.RSCP_AUTHENTICATION_USER, DataType: rscp.CString, Value: "loguser"},
+						{Tag: rscp.RSCP_AUTHENTICATION_PASSWORD, DataType: rscp.CString, Value: j.pw}}}})
+				case strings.HasPrefix(j.scenario, "secret-request"):
+					// requests that carry secrets (a pass phrase; a nested password item), not in first place; the device answers
+					// the first request and then fails (or answers everything)
+					q := func(s string) string { b, _ := json.Marshal(s); return string(b) }
+					reqText = `["INFO_REQ_SERIAL_NUMBER", ["RSCP_REQ_SET_ENCRYPTION_PASSPHRASE", ` + q(j.phrase) + `], ["BAT_REQ_DATA", [["RSCP_AUTHENTICATION_PASSWORD", "CString", ` + q(j.phrase) + `]]]]`
+					ok := frameReply([]rscp.Message{{Tag: rscp.INFO_SERIAL_NUMBER, DataType: rscp.CString, Value: "serial"}})
+					bad := replySpec{behaviour{kind: "closeBefore"}, "X"}
+					switch j.scenario {
+					case "secret-request-fails split":
+						c.users = []replySpec{ok, bad, bad}
+						extra = []string{"-splitrequests"}
+					case "secret-request-fails":
+						c.users = []replySpec{bad}
+					default:
+						c.users = []replySpec{ok, ok, ok}
+						extra = []string{"-splitrequests"}
+					}
+				}
+				c.args = append([]string{"-host", "127.0.0.1", "-port", "{PORT}", "-user", "loguser", "-password", j.pw, "-key", "logkey", "-debug", strconv.Itoa(j.level)}, extra...)
+				c.args = append(c.args, reqText)
 				dir := filepath.Join(rundir, fmt.Sprintf("clilog-%d", i))
 				os.MkdirAll(dir, 0o755)
 				defer os.RemoveAll(dir)
-				dev, err := startDevice(c.key, c.auth.beh, []behaviour{c.users[0].beh})
+				var ubs []behaviour
+				for _, u := range c.users {
+					ubs = append(ubs, u.beh)
+				}
+				dev, err := startDevice(c.key, c.auth.beh, ubs)
 				if err != nil {
 					j.impl, j.prop = "no-device", ""
 					return
@@ -638,7 +669,12 @@ func init() {
 				r := runCLI(dir, args, "", nil)
 				j.prop = "pass"
 				if how := containsSecret(r.stderr+r.stdout, j.pw); how != "" {
-					j.prop = fmt.Sprintf("FAIL C11 with -debug %d the tool prints the password %s (%s authentication)", j.level, how, j.scenario)
+					j.prop = fmt.Sprintf("FAIL C11 with -debug %d the tool prints the password %s (scenario %s)", j.level, how, j.scenario)
+					if strings.Contains(how, "RECEIVED") && j.scenario == "echo" {
+						j.prop = fmt.Sprintf("FAIL C11 sig=password-reflected-by-peer a peer that echoes the authentication request gets the password into the trace dump of received bytes (-debug %d)", j.level)
+					}
+				} else if containsAnyForm(r.stderr+r.stdout, j.phrase) {
+					j.prop = fmt.Sprintf("FAIL C11 with -debug %d the tool prints the value of a secret-tagged request item as text (scenario %s): %s", j.level, j.scenario, trunc(strings.ReplaceAll(r.stderr, "\n", " / "), 200))
 				}
 				if strings.Contains(r.stderr, "panic:") {
 					j.prop = "FAIL C11 the tool panics"
